@@ -327,7 +327,7 @@ func main() {
 		run.CheckFn = "check29"
 	}
 	run.DiagFn = "diag"
-	run.ShardSize = 60
+	run.ShardSize = 45
 	run.Rule = "segment sets from a mini beaconing (real DefaultExtender, real MACs) over random topologies " +
 		"(3-10 ASes, 1-3 ISDs, core/parent-child/peering/parallel links), random (src,dst) incl. src=dst and core ASes; " +
 		"streams: beaconed | perturbed (expiries, MTUs incl. uint16 wrap, re-originated duplicates, extra/matching peer entries) | " +
@@ -335,7 +335,7 @@ func main() {
 		"timestamp > uint32, single entry) | boundary (empty lists, empty segment -> panic). " +
 		"non-trivial = Combine returned >= 2 paths, or a path with a shortcut or a peering link"
 
-	n := run.Count(300, 6000)
+	n := run.Count(270, 6000)
 	root := vgen.NewRand(run.Seed)
 	var topo *topogen.Topology
 	var segs *topogen.Segments
